@@ -935,6 +935,19 @@ func c03Build(r *Run, fn *ssa.Function) {
 	r.Check("BuildPrecertTBS:aki-position", okPos, r.FnPos(fn), "the AKI position is that of the TBS extension whose Id equals the AKI OID: "+whyPos)
 	issVal := strings.TrimPrefix(issKey, "nil?")
 	r.Check("BuildPrecertTBS:aki-source", issSrc != "", r.FnPos(fn), "the replacement value is the raw Value of the pre-issuer's authorityKeyIdentifier extension: "+issVal+" = "+issSrc+" or nil")
+	// the replacement happens IN PLACE and changes the Value only: every store into an element of the
+	// TBS's extension list is the store of the new AKI value at the recorded position, with the
+	// element's Id and Critical flag (the precertificate's own) carried over
+	akiElem := "phi(-1|" + keyPos + ")"
+	{
+		okW, whyW := true, []string{}
+		for _, st := range c03ExtensionWrites(r, fn, tbs+".Extensions") {
+			_, desc, ok := c03InPlace(r, st, tbs+".Extensions", akiElem, "g:x509.OIDExtensionAuthorityKeyId")
+			whyW = append(whyW, desc)
+			okW = okW && ok
+		}
+		r.Check("BuildPrecertTBS:aki-replace-value-only", okW, r.FnPos(fn), fmt.Sprintf("the only writes into elements of the TBS's extension list replace the Value of the precertificate's own AKI extension; its Id and Critical flag stay as they were: %v", whyW))
+	}
 	type outcome struct{ inplace, removed, appended bool }
 	for _, row := range []struct {
 		name       string
@@ -976,9 +989,14 @@ func c03Build(r *Run, fn *ssa.Function) {
 			}
 			d := r.D.D(st.Addr)
 			switch {
-			case d == "&("+tbs+".Extensions[phi(-1|"+keyPos+")].Value)":
-				got.inplace = r.D.D(st.Val) == issVal
-				detail = append(detail, "ext[keyAt].Value ← "+r.D.D(st.Val))
+			case strings.HasPrefix(d, "&("+tbs+".Extensions["):
+				nv, desc, okIP := c03InPlace(r, st, tbs+".Extensions", akiElem, "g:x509.OIDExtensionAuthorityKeyId")
+				detail = append(detail, desc)
+				if okIP {
+					got.inplace = nv == issVal
+				} else {
+					got.removed, got.appended = true, true // not a replacement of the value: never equal to an expected outcome
+				}
 			case d == "&("+tbs+".Extensions)":
 				if _, isRem := c03IsRemoval(r, st.Val, tbs+".Extensions"); isRem {
 					got.removed = true
@@ -986,19 +1004,24 @@ func c03Build(r *Run, fn *ssa.Function) {
 				} else if call, isCall := st.Val.(*ssa.Call); isCall && CalleeOf(call) == "append" && r.D.D(call.Call.Args[0]) == tbs+".Extensions" {
 					// appended element {Id: AKI, Critical: false, Value: issuerKeyID}
 					okApp := false
+					// (what the struct value put into the one-element argument HOLDS where it is read:
+					// a literal written in this arm or hoisted and shared, Critical left at its zero
+					// value or set to false)
+					what := r.D.D(call.Call.Args[1])
 					if sl, isSl := call.Call.Args[1].(*ssa.Slice); isSl {
 						if arr, isA := sl.X.(*ssa.Alloc); isA {
-							for _, st2 := range r.StoresTo(fn, "&("+r.D.allocName(arr)+"[0])") {
-								if ea := baseAlloc(st2.Val); ea != nil {
-									n := r.D.allocName(ea)
-									id, cr, va := r.StoresTo(fn, "&("+n+".Id)"), r.StoresTo(fn, "&("+n+".Critical)"), r.StoresTo(fn, "&("+n+".Value)")
-									okApp = len(id) == 1 && r.D.D(id[0].Val) == "g:x509.OIDExtensionAuthorityKeyId" && len(cr) == 1 && r.D.D(cr[0].Val) == "false" && len(va) == 1 && r.D.D(va[0].Val) == issVal
+							if sts := r.StoresTo(fn, "&("+r.D.allocName(arr)+"[0])"); len(sts) == 1 && c03Before(sts[0], call) {
+								if e, why := c03ExtOf(r, sts[0].Val); why == "" {
+									okApp = e.id == "g:x509.OIDExtensionAuthorityKeyId" && e.critical == "false" && e.value == issVal
+									what = e.String()
+								} else {
+									what += " (contents unknown: " + why + ")"
 								}
 							}
 						}
 					}
 					got.appended = okApp
-					detail = append(detail, "appended "+r.D.D(call.Call.Args[1]))
+					detail = append(detail, "appended "+what)
 				} else {
 					detail = append(detail, "Extensions ← "+r.D.D(st.Val))
 					got.removed, got.appended = true, true // unknown rewrite: never equal to an expected outcome
